@@ -610,6 +610,11 @@ def run(ck):
         check_e(ck, repo)
     except ImportError as e:
         ck.unknown("C09.b", None, "Cython parser", f"cannot import Cython's parser: {e}", file="-", function="-", line=0)
+    from .sem import share_clauses
+
+    share_clauses(ck, "c02", {
+        "C02.b": ("C09.f", "the criterion hyper-parameter temporarily replaced by the compiled criterion is restored on every exit of fit, exceptional ones included: the next fit still sees 'mselin' / 'simple'"),
+    }, keep=lambda o: o.file.endswith("piecewise_tree_regression.py"))
     ck.assumptions = [
         "Cython's parser yields the tree the compiler would see (no macro expansion is involved in these files)",
         "the analysis says nothing about the built extension binaries (they cannot be built offline here)",
